@@ -41,7 +41,8 @@ CONSTANTS Ops,      \* operators explored
           NSubs,    \* subscriptions of the same observable object, one after the other (C04)
           NConds,   \* length of the condition script of while_do / do_while
           NArgs,    \* start_with prepends 0..NArgs values
-          Build     \* TRUE: the source list is built one timeline per step (for -simulate: Init stays small)
+          Build,    \* TRUE: the source list is built one timeline per step (for -simulate: Init stays small)
+          Slim      \* TRUE: the quick tier's single run - the expensive dimensions are not multiplied (see SlimOK)
 
 INF   == 99           \* unbounded repeat / retry count
 NEVER == 999          \* "not yet" / "never" instant
@@ -178,6 +179,14 @@ Decide(o, p, K, f, s, r, why, e) ==
     [] OTHER -> FinR(s, <<Cn>>)
 
 (* ---- the runner ---------------------------------------------------------------------------- *)
+\* Quick tier (one TLC invocation): three sources only for the list operators with distinct code paths and
+\* without take; dispose instants only without take, over at most two sources / one run timeline and one count.
+SlimOK(o, p, ss, c, d) ==
+  /\ (Len(ss) >= 3) => (o \in {"concat", "for_in", "catch", "oern"} /\ c = 0 /\ d = NEVER)
+  /\ (d # NEVER) => /\ c = 0
+                    /\ (o \in RunOps => Len(ss) = 1)
+                    /\ (o \in {"repeat", "retry"} => p.n = 2)
+
 Run0 == /\ now = 0 /\ cur = 0 /\ pos = 0 /\ st = S0 /\ out = <<>> /\ subs = <<>>
         /\ done = FALSE /\ pe = 0 /\ disposed = FALSE /\ k = 1 /\ hist = <<>>
 Init == /\ op \in Ops
@@ -192,6 +201,7 @@ Init == /\ op \in Ops
                 /\ kk = Len(srcs) /\ pend = "S"
                 /\ Terminates(op, par, srcs, cut)
                 /\ Relevant(op, srcs)
+                /\ Slim => SlimOK(op, par, srcs, cut, dsp)
                 /\ (NSubs > 1 /\ op \in RunOps) => Len(srcs) = 1      \* only then is the resubscribed source cold
         /\ Run0
 
